@@ -71,22 +71,22 @@ VERUS_TOOLCHAIN = os.environ.get('VERIF_VERUS_TOOLCHAIN', '1.98.1-x86_64-unknown
 
 
 def build_externs(g, repo):
-    """`//@ extern <package> <crate>...`: build <package>'s dependencies offline with the toolchain Verus itself uses
-    (so the rlibs are loadable by it) into the work directory and return the rustc flags that link them.
-    Raises SpecError (tool trouble, exit 2) if the build fails or a crate is missing."""
+    """`//@ extern <package> <crate>...`: build the named dependency crates of <package> offline, from the repo's
+    Cargo.lock, with the toolchain Verus itself uses (so the rlibs are loadable by it) into the work directory and
+    return the rustc flags that link them.  Raises SpecError (tool trouble, exit 2) if a crate cannot be built."""
+    import glob
     flags = []
     for pkg, crates in getattr(g, 'externs', []):
         tgt = os.path.join(WORK, 'extern-target')
         env = dict(os.environ, CARGO_NET_OFFLINE='true')
         env.pop('RUSTUP_TOOLCHAIN', None)
-        p = subprocess.run(['cargo', '+' + VERUS_TOOLCHAIN, 'build', '--offline', '-q', '-p', pkg, '--target-dir', tgt],
-                           cwd=repo, capture_output=True, text=True, env=env)
         deps = os.path.join(tgt, 'debug', 'deps')
         for c in crates:
-            import glob
+            p = subprocess.run(['cargo', '+' + VERUS_TOOLCHAIN, 'build', '--offline', '-q', '-p', c, '--target-dir', tgt],
+                               cwd=os.path.join(repo, pkg), capture_output=True, text=True, env=env)
             libs = sorted(glob.glob(os.path.join(deps, 'lib%s-*.rlib' % c)), key=os.path.getmtime)
-            if not libs:
-                raise vgen.SpecError('extern crate %s of %s was not built (cargo rc=%d): %s' % (c, pkg, p.returncode, p.stderr[-400:]))
+            if p.returncode != 0 or not libs:
+                raise vgen.SpecError('extern crate %s (dependency of %s) was not built (cargo rc=%d): %s' % (c, pkg, p.returncode, p.stderr[-400:]))
             flags += ['--extern', '%s=%s' % (c, libs[-1])]
         flags += ['-L', 'dependency=' + deps]
     return flags
